@@ -18,7 +18,7 @@ Definition WInv (s : ugm_state) (L : ledger) : Prop :=
 (* the group of an application that holds something is resolved, and resolved groups have a tracker *)
 Definition Links (s : ugm_state) (L : ledger) : Prop :=
   (forall e, In e L -> resolved s (le_user e) (le_app e) <> None) /\
-  (forall u a g, link s u a = Some g -> nlookup (groups s) g <> None).
+  (forall u a g, link s u a = Some g -> nlookup (groups s) g <> None /\ g <> EMPTY).
 (* group trackers carry a limit that counts (so they are never removed), and every group that the
    configuration can resolve has a tracker (so none is created on the fly) *)
 Definition anchored (q : qt) : Prop := exists names l, alim q names = Some l /\ real l = true.
@@ -96,7 +96,7 @@ Definition Inv (s : ugm_state) (L : ledger) : Prop := WInv s L /\ Links s L /\ A
 (* two states with the same trackers' roots up to readable content, the same resolutions and the
    same groups *)
 Lemma WInv_transfer s s' L :
-  (forall u a, resolved s' u a = resolved s u a) ->
+  (forall e, In e L -> resolved s' (le_user e) (le_app e) = resolved s (le_user e) (le_app e)) ->
   (forall w, match who_root s w, who_root s' w with
              | Some q, Some q' => (forall names, araw q' names = araw q names) /\ (forall names, aapps q' names = aapps q names)
              | None, None => True
@@ -106,10 +106,566 @@ Lemma WInv_transfer s s' L :
   WInv s L -> WInv s' L.
 Proof.
   intros Hres Hroots HW w. specialize (Hroots w). specialize (HW w).
-  assert (Hc : forall e, counts s' w e = counts s w e) by (intros e; apply counts_resolved; apply Hres).
+  assert (Hc : forall e, In e L -> counts s' w e = counts s w e) by (intros e Hin; apply counts_resolved; apply Hres; assumption).
   destruct (who_root s w) as [q|], (who_root s' w) as [q'|]; try contradiction.
-  - destruct Hroots as (Hr & Ha). apply (TInv_ext q' (counts s w)); [intros; symmetry; apply Hc|].
+  - destruct Hroots as (Hr & Ha). apply (TInv_ext q' (counts s w)); [intros; symmetry; apply Hc; assumption|].
     apply (TInv_same q q'); assumption.
-  - destruct Hroots as (Hr & Ha). apply TInv_empty; try assumption. intros e Hin. rewrite Hc. apply HW. assumption.
-  - intros e Hin. rewrite Hc. apply HW. assumption.
+  - destruct Hroots as (Hr & Ha). apply TInv_empty; try assumption. intros e Hin. rewrite Hc by assumption. apply HW. assumption.
+  - intros e Hin. rewrite Hc by assumption. apply HW. assumption.
+Qed.
+
+Ltac roots_same := match goal with |- match ?o with _ => _ end => destruct o; [split; reflexivity|exact I] end.
+
+(* ---- A. getUserTracker ---- *)
+Lemma resolved_getUserTracker s u u' a : resolved (fst (getUserTracker s u)) u' a = resolved s u' a.
+Proof.
+  unfold getUserTracker. destruct (nlookup (users s) u) as [ut|] eqn:E; [reflexivity|]. cbn [fst].
+  unfold resolved. cbn [users set_users]. rewrite nlookup_nset. destruct (N.eqb_spec u' u) as [->|]; [|reflexivity].
+  rewrite E. reflexivity.
+Qed.
+Lemma Inv_getUserTracker s L u : Inv s L -> Inv (fst (getUserTracker s u)) L.
+Proof.
+  intros (HW & (HL1 & HL2) & HA). set (s1 := fst (getUserTracker s u)).
+  assert (Hg : groups s1 = groups s) by (unfold s1, getUserTracker; destruct (nlookup (users s) u); reflexivity).
+  assert (Hcg : cfgGroups s1 = cfgGroups s /\ groupWild s1 = groupWild s) by (unfold s1, getUserTracker; destruct (nlookup (users s) u); split; reflexivity).
+  split; [|split].
+  - apply (WInv_transfer s s1 L); [intros; apply resolved_getUserTracker| |assumption].
+    intros [u'|g]; cbn [who_root].
+    + unfold s1, getUserTracker. destruct (nlookup (users s) u) as [ut|] eqn:E; cbn [fst users set_users].
+      * roots_same.
+      * rewrite nlookup_nset. destruct (N.eqb_spec u' u) as [->|].
+        -- rewrite E. cbn. split; intros; [apply araw_newRoot|apply aapps_newRoot].
+        -- roots_same.
+    + rewrite Hg. roots_same.
+  - split.
+    + intros e Hin. unfold s1. rewrite resolved_getUserTracker. apply HL1. assumption.
+    + intros u' a g Hl. rewrite Hg. apply (HL2 u' a g). rewrite link_resolved in *. unfold s1 in Hl. rewrite resolved_getUserTracker in Hl. assumption.
+  - destruct HA as (HA1 & HA2). destruct Hcg as (Hc1 & Hc2). split.
+    + intros g gt. rewrite Hg. apply HA1.
+    + intros g (p & Hr). rewrite Hg. apply HA2. exists p. rewrite Hc1, Hc2 in Hr. assumption.
+Qed.
+
+(* ---- B. ensure_link ---- *)
+Lemma first_match_In cgs ugroups g : first_match cgs ugroups = Some g -> In g cgs.
+Proof.
+  induction cgs as [|c t IH]; cbn; [discriminate|]. destruct (mem c ugroups); [intros H; injection H as <-; left; reflexivity|].
+  intros H. right. apply IH. assumption.
+Qed.
+Lemma ensureGroupInternal_resolvable s ugroups rp : ensureGroupInternal s ugroups rp <> EMPTY -> resolvable s (ensureGroupInternal s ugroups rp).
+Proof.
+  induction rp as [|x rp' IH]; [intros H; contradiction H; reflexivity|].
+  cbn [ensureGroupInternal]. destruct (plookup (cfgGroups s) (rev (x :: rp'))) as [cgs|] eqn:Ec.
+  - destruct (first_match cgs ugroups) as [g|] eqn:Ef.
+    + intros _. exists (rev (x :: rp')). left. exists cgs. split; [assumption|]. apply (first_match_In _ _ _ Ef).
+    + destruct (plookup (groupWild s) (rev (x :: rp'))) eqn:Ew.
+      * intros _. exists (rev (x :: rp')). right. split; [reflexivity|]. rewrite Ew. discriminate.
+      * destruct rp'; [intros H; contradiction H; reflexivity|exact IH].
+  - destruct (plookup (groupWild s) (rev (x :: rp'))) eqn:Ew.
+    + intros _. exists (rev (x :: rp')). right. split; [reflexivity|]. rewrite Ew. discriminate.
+    + destruct rp'; [intros H; contradiction H; reflexivity|exact IH].
+Qed.
+Lemma ensureGroup_resolvable s (user : ugi) p : ensureGroup s user p <> EMPTY -> resolvable s (ensureGroup s user p).
+Proof. unfold ensureGroup. destruct (snd user); [intros H; contradiction H; reflexivity|apply ensureGroupInternal_resolvable]. Qed.
+
+Lemma resolved_set_links s u ut a lk u' a' : nlookup (users s) u = Some ut ->
+  resolved (set_users s (nset u (mkUT (nset a lk (ut_links ut)) (ut_qt ut)) (users s))) u' a' =
+  if (u' =? u) && (a' =? a) then Some lk else resolved s u' a'.
+Proof.
+  intros Hu. unfold resolved. cbn [users set_users]. rewrite nlookup_nset.
+  destruct (N.eqb_spec u' u) as [->|]; cbn [andb]; [|reflexivity]. rewrite Hu. cbn [ut_links]. apply nlookup_nset.
+Qed.
+
+Lemma Inv_ensure_link s L p a (user : ugi) : Inv s L -> Inv (ensure_link s p a user) L.
+Proof.
+  intros (HW & (HL1 & HL2) & (HA1 & HA2)). unfold ensure_link.
+  destruct (nlookup (users s) (fst user)) as [ut|] eqn:Hu; [|exact (conj HW (conj (conj HL1 HL2) (conj HA1 HA2)))].
+  destruct (hasGroupForApp ut a) eqn:Hh; [exact (conj HW (conj (conj HL1 HL2) (conj HA1 HA2)))|].
+  unfold ensureGroupTrackerForApp. rewrite Hu, Hh.
+  set (g := ensureGroup s user p). set (lk := if g =? EMPTY then None else Some g).
+  assert (Hs1 : (if g =? EMPTY then s else match nlookup (groups s) g with Some _ => s | None => set_groups s (nset g newGroupTracker (groups s)) end) = s).
+  { destruct (N.eqb_spec g EMPTY) as [|Hne]; [reflexivity|].
+    destruct (nlookup (groups s) g) eqn:Eg; [reflexivity|]. exfalso. apply (HA2 g); [|assumption].
+    apply ensureGroup_resolvable. assumption. }
+  rewrite Hs1. set (s2 := set_users s _).
+  assert (Hnone : resolved s (fst user) a = None).
+  { unfold resolved. rewrite Hu. unfold hasGroupForApp in Hh. destruct (nlookup (ut_links ut) a); [discriminate|reflexivity]. }
+  assert (Hres : forall u' a', resolved s2 u' a' = if (u' =? fst user) && (a' =? a) then Some lk else resolved s u' a')
+    by (intros; apply resolved_set_links; assumption).
+  assert (HresL : forall e, In e L -> resolved s2 (le_user e) (le_app e) = resolved s (le_user e) (le_app e)).
+  { intros e Hin. rewrite Hres. destruct (N.eqb_spec (le_user e) (fst user)) as [Eu|]; [|reflexivity].
+    destruct (N.eqb_spec (le_app e) a) as [Ea|]; [|reflexivity]. exfalso. apply (HL1 e Hin). rewrite Eu, Ea. assumption. }
+  split; [|split].
+  - apply (WInv_transfer s s2 L HresL); [|assumption]. intros [u'|g']; cbn [who_root].
+    + unfold s2. cbn [users set_users]. rewrite nlookup_nset. destruct (N.eqb_spec u' (fst user)) as [->|]; [|roots_same].
+      rewrite Hu. cbn. split; reflexivity.
+    + change (groups s2) with (groups s). roots_same.
+  - split.
+    + intros e Hin. rewrite HresL by assumption. apply HL1. assumption.
+    + intros u' a' g' Hl. change (groups s2) with (groups s). rewrite link_resolved, Hres in Hl.
+      destruct ((u' =? fst user) && (a' =? a)).
+      * unfold lk in Hl. destruct (N.eqb_spec g EMPTY) as [|Hne]; [discriminate|]. injection Hl as <-.
+        split; [|assumption]. apply HA2. apply ensureGroup_resolvable. assumption.
+      * apply (HL2 u' a' g'). rewrite link_resolved. assumption.
+  - split; assumption.
+Qed.
+
+(* ---- C. / D. a tracker tree replaced by one that reads the same ---- *)
+Lemma resolved_set_tree s u ut Q' u' a' : nlookup (users s) u = Some ut ->
+  resolved (set_users s (nset u (mkUT (ut_links ut) Q') (users s))) u' a' = resolved s u' a'.
+Proof.
+  intros Hu. unfold resolved. cbn [users set_users]. rewrite nlookup_nset.
+  destruct (N.eqb_spec u' u) as [->|]; [|reflexivity]. rewrite Hu. reflexivity.
+Qed.
+
+Lemma Inv_user_tree_same s L u ut Q' : Inv s L -> nlookup (users s) u = Some ut ->
+  (forall names, araw Q' names = araw (ut_qt ut) names) -> (forall names, aapps Q' names = aapps (ut_qt ut) names) ->
+  Inv (set_users s (nset u (mkUT (ut_links ut) Q') (users s))) L.
+Proof.
+  intros (HW & (HL1 & HL2) & HA) Hu Hr Ha. set (s' := set_users s _).
+  assert (Hres : forall u' a', resolved s' u' a' = resolved s u' a') by (intros; apply resolved_set_tree; assumption).
+  split; [|split].
+  - apply (WInv_transfer s s' L); [intros; apply Hres| |assumption]. intros [u'|g']; cbn [who_root].
+    + unfold s'. cbn [users set_users]. rewrite nlookup_nset. destruct (N.eqb_spec u' u) as [->|]; [|roots_same].
+      rewrite Hu. cbn. split; assumption.
+    + change (groups s') with (groups s). roots_same.
+  - split.
+    + intros e Hin. rewrite Hres. apply HL1. assumption.
+    + intros u' a' g' Hl. change (groups s') with (groups s). apply (HL2 u' a' g'). rewrite link_resolved in *. rewrite Hres in Hl. assumption.
+  - exact HA.
+Qed.
+
+Lemma Inv_group_tree_same s L g gt GQ' : Inv s L -> nlookup (groups s) g = Some gt ->
+  (forall names, araw GQ' names = araw (gt_qt gt) names) -> (forall names, aapps GQ' names = aapps (gt_qt gt) names) ->
+  (forall names l, alim (gt_qt gt) names = Some l -> alim GQ' names = Some l) ->
+  Inv (set_groups s (nset g (mkGT (gt_apps gt) GQ') (groups s))) L.
+Proof.
+  intros (HW & (HL1 & HL2) & (HA1 & HA2)) Hg Hr Ha Hl. set (s' := set_groups s _).
+  assert (Hres : forall u' a', resolved s' u' a' = resolved s u' a') by reflexivity.
+  split; [|split].
+  - apply (WInv_transfer s s' L); [intros; apply Hres| |assumption]. intros [u'|g']; cbn [who_root].
+    + change (users s') with (users s). roots_same.
+    + unfold s'. cbn [groups set_groups]. rewrite nlookup_nset. destruct (N.eqb_spec g' g) as [->|]; [|roots_same].
+      rewrite Hg. cbn. split; assumption.
+  - split.
+    + intros e Hin. rewrite Hres. apply HL1. assumption.
+    + intros u' a' g' Hlk. unfold s'. cbn [groups set_groups]. rewrite nlookup_nset.
+      destruct (HL2 u' a' g' Hlk) as (H1 & H2). split; [|assumption]. destruct (N.eqb_spec g' g); [discriminate|assumption].
+  - split.
+    + intros g' gt'. unfold s'. cbn [groups set_groups]. rewrite nlookup_nset. destruct (N.eqb_spec g' g) as [->|]; [|apply HA1].
+      intros H. injection H as <-. cbn [gt_qt]. destruct (HA1 g gt Hg) as (names & l & Hal & Hre).
+      exists names, l. split; [apply Hl; assumption|assumption].
+    + intros g' Hrv. unfold s'. cbn [groups set_groups]. rewrite nlookup_nset. destruct (N.eqb_spec g' g); [discriminate|].
+      apply HA2. exact Hrv.
+Qed.
+
+(* ---- Headroom and CanRunApp keep the invariant ---- *)
+Lemma Inv_headroom s L x tl a (user : ugi) : Inv s L -> Inv (fst (ugm_headroom s (x :: tl) a user)) L.
+Proof.
+  intros HI. unfold ugm_headroom.
+  destruct (getUserTracker s (fst user)) as [s1 ut] eqn:Eg.
+  assert (HI1 : Inv s1 L) by (replace s1 with (fst (getUserTracker s (fst user))) by (rewrite Eg; reflexivity); apply Inv_getUserTracker; assumption).
+  destruct (getUserTracker_spec s (fst user) s1 ut Eg) as (Hu1 & _).
+  destruct (headroom (userWild s1) TUser (x :: tl) (ut_qt ut)) as [uq' uh] eqn:Eh.
+  assert (Euq : uq' = fst (headroom (userWild s1) TUser (x :: tl) (ut_qt ut))) by (rewrite Eh; reflexivity).
+  set (s2 := set_users s1 (nset (fst user) (mkUT (ut_links ut) uq') (users s1))).
+  assert (HI2 : Inv s2 L).
+  { apply Inv_user_tree_same; try assumption; intros; rewrite Euq; [apply headroom_araw|apply headroom_aapps]. }
+  pose proof (Inv_ensure_link s2 L (x :: tl) a user HI2) as HI3. set (s3 := ensure_link s2 (x :: tl) a user) in *.
+  destruct (nlookup (users s3) (fst user)) as [ut3|]; [|exact HI3].
+  destruct (getGroupForApp ut3 a =? EMPTY); [exact HI3|].
+  destruct (nlookup (groups s3) (getGroupForApp ut3 a)) as [gt|] eqn:Egt; [|exact HI3].
+  destruct (headroom [] TGroup (x :: tl) (gt_qt gt)) as [gq' gh] eqn:Egh. cbn [fst].
+  assert (Egq : gq' = fst (headroom [] TGroup (x :: tl) (gt_qt gt))) by (rewrite Egh; reflexivity).
+  apply Inv_group_tree_same; try assumption; intros; rewrite Egq; [apply headroom_araw|apply headroom_aapps|apply headroom_alim; assumption].
+Qed.
+Lemma Inv_can_run_app s L x tl a (user : ugi) : Inv s L -> Inv (fst (ugm_can_run_app s (x :: tl) a user)) L.
+Proof.
+  intros HI. unfold ugm_can_run_app.
+  destruct (getUserTracker s (fst user)) as [s1 ut] eqn:Eg.
+  assert (HI1 : Inv s1 L) by (replace s1 with (fst (getUserTracker s (fst user))) by (rewrite Eg; reflexivity); apply Inv_getUserTracker; assumption).
+  destruct (getUserTracker_spec s (fst user) s1 ut Eg) as (Hu1 & _).
+  destruct (canRunApp (userWild s1) TUser (x :: tl) a (ut_qt ut)) as [uq' uok] eqn:Eh.
+  assert (Euq : uq' = fst (canRunApp (userWild s1) TUser (x :: tl) a (ut_qt ut))) by (rewrite Eh; reflexivity).
+  set (s2 := set_users s1 (nset (fst user) (mkUT (ut_links ut) uq') (users s1))).
+  assert (HI2 : Inv s2 L).
+  { apply Inv_user_tree_same; try assumption; intros; rewrite Euq; [apply canRunApp_araw|apply canRunApp_aapps]. }
+  pose proof (Inv_ensure_link s2 L (x :: tl) a user HI2) as HI3. set (s3 := ensure_link s2 (x :: tl) a user) in *.
+  destruct (nlookup (users s3) (fst user)) as [ut3|]; [|exact HI3].
+  destruct (getGroupForApp ut3 a =? EMPTY); [exact HI3|].
+  destruct (nlookup (groups s3) (getGroupForApp ut3 a)) as [gt|] eqn:Egt; [|exact HI3].
+  destruct (canRunApp [] TGroup (x :: tl) a (gt_qt gt)) as [gq' gok] eqn:Egh. cbn [fst].
+  assert (Egq : gq' = fst (canRunApp [] TGroup (x :: tl) a (gt_qt gt))) by (rewrite Egh; reflexivity).
+  apply Inv_group_tree_same; try assumption; intros; rewrite Egq; [apply canRunApp_araw|apply canRunApp_aapps|apply canRunApp_alim; assumption].
+Qed.
+
+(* ---- Increase ---- *)
+Lemma resolved_has ut s u a : nlookup (users s) u = Some ut -> hasGroupForApp ut a = true -> resolved s u a <> None.
+Proof. intros Hu Hh. unfold resolved. rewrite Hu. unfold hasGroupForApp in Hh. destruct (nlookup (ut_links ut) a); [discriminate|discriminate]. Qed.
+Lemma link_getGroup s u a ut : nlookup (users s) u = Some ut ->
+  link s u a = if getGroupForApp ut a =? EMPTY then (match link s u a with Some g => Some g | None => None end) else Some (getGroupForApp ut a).
+Proof.
+  intros Hu. unfold link, getGroupForApp. rewrite Hu. destruct (nlookup (ut_links ut) a) as [[g|]|]; cbn; try reflexivity.
+  destruct (g =? EMPTY); reflexivity.
+Qed.
+
+Lemma anchored_increase wc tt x tl a u q : anchored q -> anchored (increase wc tt (x :: tl) a u q).
+Proof. intros (names & l & Hl & Hr). exists names, l. split; [apply increase_alim; assumption|assumption]. Qed.
+
+Lemma Inv_increase_prepared s L x tl a r (user : ugi) ut :
+  Inv s L -> nlookup (users s) (fst user) = Some ut -> hasGroupForApp ut a = true ->
+  wf r -> res_in_range r ->
+  bounded L -> bounded (mkLE a (fst user) (x :: tl) r :: L) ->
+  Inv (let ut' := mkUT (ut_links ut) (increase (userWild s) TUser (x :: tl) a (Some r) (ut_qt ut)) in
+       let s3 := set_users s (nset (fst user) ut' (users s)) in
+       let g := getGroupForApp ut a in
+       if g =? EMPTY then s3 else
+       match nlookup (groups s) g with
+       | None => s3
+       | Some gt => set_groups s3 (nset g (mkGT (nset a (fst user) (gt_apps gt)) (increase [] TGroup (x :: tl) a (Some r) (gt_qt gt))) (groups s))
+       end)
+      (mkLE a (fst user) (x :: tl) r :: L).
+Proof.
+  intros (HW & (HL1 & HL2) & (HA1 & HA2)) Hu Hh Wr Rr B B'. cbv zeta.
+  set (u := fst user) in *. set (e0 := mkLE a u (x :: tl) r) in *.
+  set (ut' := mkUT (ut_links ut) (increase (userWild s) TUser (x :: tl) a (Some r) (ut_qt ut))).
+  set (s3 := set_users s (nset u ut' (users s))).
+  set (g := getGroupForApp ut a).
+  (* the group side: either nothing changes, or the tracker of the linked group is increased *)
+  assert (Hcase : (link s u a = None /\ (if g =? EMPTY then s3 else match nlookup (groups s) g with None => s3 | Some gt => set_groups s3 (nset g (mkGT (nset a u (gt_apps gt)) (increase [] TGroup (x :: tl) a (Some r) (gt_qt gt))) (groups s)) end) = s3) \/
+                  (exists gt, link s u a = Some g /\ nlookup (groups s) g = Some gt /\
+                     (if g =? EMPTY then s3 else match nlookup (groups s) g with None => s3 | Some gt => set_groups s3 (nset g (mkGT (nset a u (gt_apps gt)) (increase [] TGroup (x :: tl) a (Some r) (gt_qt gt))) (groups s)) end) =
+                     set_groups s3 (nset g (mkGT (nset a u (gt_apps gt)) (increase [] TGroup (x :: tl) a (Some r) (gt_qt gt))) (groups s)))).
+  { destruct (link s u a) as [g0|] eqn:El.
+    - right. destruct (HL2 u a g0 El) as (Hex & Hne).
+      assert (g = g0).
+      { unfold g, getGroupForApp. unfold link in El. rewrite Hu in El. destruct (nlookup (ut_links ut) a) as [[g1|]|]; congruence. }
+      subst g0. destruct (nlookup (groups s) g) as [gt|] eqn:Eg; [|contradiction]. exists gt.
+      destruct (N.eqb_spec g EMPTY); [contradiction|]. repeat split; reflexivity.
+    - left. split; [reflexivity|].
+      assert (g = EMPTY).
+      { unfold g, getGroupForApp. unfold link in El. rewrite Hu in El. destruct (nlookup (ut_links ut) a) as [[g1|]|]; congruence. }
+      rewrite H. reflexivity. }
+  assert (Hres3 : forall u' a', resolved s3 u' a' = resolved s u' a') by (intros; apply resolved_set_tree; assumption).
+  assert (Hc0u : forall u', counts s (User u') e0 = (u =? u')) by reflexivity.
+  destruct Hcase as [(El & ->)|(gt & El & Eg & ->)].
+  - (* no group *)
+    split; [|split].
+    + intros w. assert (Hc : forall e, counts s3 w e = counts s w e) by (intros; apply counts_resolved; apply Hres3).
+      specialize (HW w). destruct w as [u'|g']; cbn [who_root].
+      * unfold s3. cbn [users set_users]. rewrite nlookup_nset. destruct (N.eqb_spec u' u) as [->|Hne].
+        -- cbn [option_map ut_qt ut']. cbn [who_root] in HW. rewrite Hu in HW. cbn [option_map] in HW.
+           apply (TInv_ext _ (counts s (User u))); [intros; symmetry; apply Hc|].
+           apply TInv_increase; try assumption. cbn. apply N.eqb_refl.
+        -- cbn [who_root] in HW. destruct (nlookup (users s) u') as [ut1|]; cbn [option_map] in *.
+           ++ apply (TInv_ext _ (counts s (User u'))); [intros; symmetry; apply Hc|]. apply TInv_cons_unsel; [|assumption].
+              cbn. destruct (N.eqb_spec u u'); [congruence|reflexivity].
+           ++ intros e [<-|Hin]; [cbn; destruct (N.eqb_spec u u'); [congruence|reflexivity]|rewrite Hc; apply HW; assumption].
+      * change (groups s3) with (groups s). cbn [who_root] in HW.
+        assert (Hc0 : counts s (Group g') e0 = false) by (cbn; rewrite El; reflexivity).
+        destruct (nlookup (groups s) g') as [gt1|]; cbn [option_map] in *.
+        -- apply (TInv_ext _ (counts s (Group g'))); [intros; symmetry; apply Hc|]. apply TInv_cons_unsel; assumption.
+        -- intros e [<-|Hin]; [rewrite Hc; assumption|rewrite Hc; apply HW; assumption].
+    + split.
+      * intros e [<-|Hin]; rewrite Hres3; [cbn; apply (resolved_has ut); assumption|apply HL1; assumption].
+      * intros u' a' g' Hl. change (groups s3) with (groups s). apply (HL2 u' a' g'). rewrite link_resolved in *. rewrite Hres3 in Hl. assumption.
+    + split; assumption.
+  - (* group g is charged *)
+    set (gt' := mkGT (nset a u (gt_apps gt)) (increase [] TGroup (x :: tl) a (Some r) (gt_qt gt))).
+    set (s4 := set_groups s3 (nset g gt' (groups s))).
+    assert (Hres4 : forall u' a', resolved s4 u' a' = resolved s u' a') by (intros; apply Hres3).
+    split; [|split].
+    + intros w. assert (Hc : forall e, counts s4 w e = counts s w e) by (intros; apply counts_resolved; apply Hres4).
+      specialize (HW w). destruct w as [u'|g']; cbn [who_root].
+      * change (users s4) with (users s3). unfold s3. cbn [users set_users]. rewrite nlookup_nset. destruct (N.eqb_spec u' u) as [->|Hne].
+        -- cbn [option_map ut_qt ut']. cbn [who_root] in HW. rewrite Hu in HW. cbn [option_map] in HW.
+           apply (TInv_ext _ (counts s (User u))); [intros; symmetry; apply Hc|].
+           apply TInv_increase; try assumption. cbn. apply N.eqb_refl.
+        -- cbn [who_root] in HW. destruct (nlookup (users s) u') as [ut1|]; cbn [option_map] in *.
+           ++ apply (TInv_ext _ (counts s (User u'))); [intros; symmetry; apply Hc|]. apply TInv_cons_unsel; [|assumption].
+              cbn. destruct (N.eqb_spec u u'); [congruence|reflexivity].
+           ++ intros e [<-|Hin]; [cbn; destruct (N.eqb_spec u u'); [congruence|reflexivity]|rewrite Hc; apply HW; assumption].
+      * unfold s4. cbn [groups set_groups]. rewrite nlookup_nset. cbn [who_root] in HW.
+        assert (Hc0 : counts s (Group g') e0 = (g =? g')) by (cbn; rewrite El; reflexivity).
+        destruct (N.eqb_spec g' g) as [->|Hne].
+        -- cbn [option_map gt_qt gt']. rewrite Eg in HW. cbn [option_map] in HW.
+           apply (TInv_ext _ (counts s (Group g))); [intros; symmetry; apply Hc|].
+           apply TInv_increase; try assumption. exact (eq_trans Hc0 (N.eqb_refl g)).
+        -- assert (Hc0' : counts s (Group g') e0 = false) by (rewrite Hc0; destruct (N.eqb_spec g g'); [congruence|reflexivity]).
+           destruct (nlookup (groups s) g') as [gt1|]; cbn [option_map] in *.
+           ++ apply (TInv_ext _ (counts s (Group g'))); [intros; symmetry; apply Hc|]. apply TInv_cons_unsel; assumption.
+           ++ intros e [<-|Hin]; [rewrite Hc; assumption|rewrite Hc; apply HW; assumption].
+    + split.
+      * intros e [<-|Hin]; rewrite Hres4; [cbn; apply (resolved_has ut); assumption|apply HL1; assumption].
+      * intros u' a' g' Hl. unfold s4. cbn [groups set_groups]. rewrite nlookup_nset.
+        assert (Hl' : link s u' a' = Some g') by (rewrite link_resolved in *; rewrite Hres4 in Hl; assumption).
+        destruct (HL2 u' a' g' Hl') as (H1 & H2). split; [|assumption]. destruct (N.eqb_spec g' g); [discriminate|assumption].
+    + split.
+      * intros g' gt1. unfold s4. cbn [groups set_groups]. rewrite nlookup_nset. destruct (N.eqb_spec g' g) as [->|]; [|apply HA1].
+        intros H. injection H as <-. cbn [gt_qt gt']. apply anchored_increase. apply (HA1 g gt Eg).
+      * intros g' Hrv. unfold s4. cbn [groups set_groups]. rewrite nlookup_nset. destruct (N.eqb_spec g' g); [discriminate|].
+        apply HA2. exact Hrv.
+Qed.
+
+Lemma ugm_increase_prepare s x tl a r (user : ugi) :
+  (a =? EMPTY) = false -> (fst user =? EMPTY) = false ->
+  ugm_increase s (x :: tl) a (Some r) user =
+  ugm_increase (ensure_link (fst (getUserTracker s (fst user))) (x :: tl) a user) (x :: tl) a (Some r) user.
+Proof.
+  intros Ha Hu. destruct (getUserTracker s (fst user)) as [s1 ut0] eqn:Eg. cbn [fst].
+  destruct (getUserTracker_spec s (fst user) s1 ut0 Eg) as (Hu1 & _).
+  destruct (ensure_link_spec s1 (x :: tl) a user ut0 Hu1) as (links' & Hl & Hh & _).
+  set (s2 := ensure_link s1 (x :: tl) a user) in *.
+  rewrite (ugm_increase_resolved s2 x tl a r user _ Ha Hu Hl Hh).
+  unfold ugm_increase. rewrite Ha, Hu, Eg. cbn [is_nil orb]. fold s2. rewrite Hl. reflexivity.
+Qed.
+
+Lemma Inv_increase s L x tl a r (user : ugi) :
+  Inv s L -> (a =? EMPTY) = false -> (fst user =? EMPTY) = false -> wf r -> res_in_range r ->
+  bounded L -> bounded (mkLE a (fst user) (x :: tl) r :: L) ->
+  Inv (ugm_increase s (x :: tl) a (Some r) user) (mkLE a (fst user) (x :: tl) r :: L).
+Proof.
+  intros HI Ha Hu Wr Rr B B'. rewrite (ugm_increase_prepare s x tl a r user Ha Hu).
+  destruct (getUserTracker s (fst user)) as [s1 ut0] eqn:Eg. cbn [fst].
+  assert (HI1 : Inv s1 L) by (replace s1 with (fst (getUserTracker s (fst user))) by (rewrite Eg; reflexivity); apply Inv_getUserTracker; assumption).
+  destruct (getUserTracker_spec s (fst user) s1 ut0 Eg) as (Hu1 & _).
+  destruct (ensure_link_spec s1 (x :: tl) a user ut0 Hu1) as (links' & Hl & Hh & _).
+  pose proof (Inv_ensure_link s1 L (x :: tl) a user HI1) as HI2.
+  set (s2 := ensure_link s1 (x :: tl) a user) in *.
+  rewrite (ugm_increase_resolved s2 x tl a r user _ Ha Hu Hl Hh).
+  apply (Inv_increase_prepared s2 L x tl a r user _ HI2 Hl Hh Wr Rr B B').
+Qed.
+
+(* ---- Decrease ---- *)
+Definition ledger_dec (L : ledger) (a : app) (u : uname) (p : path) (r : res) (rm : bool) : ledger :=
+  if rm then filter (fun e => negb (le_app e =? a)) L else mkLE a u p (neg_res r) :: L.
+
+Lemma asum_ext sel sel' a L k : (forall e, In e L -> le_app e = a -> sel e = sel' e) -> asum sel a L k = asum sel' a L k.
+Proof.
+  induction L as [|e t IH]; intros H; [reflexivity|]. cbn [asum fold_right]. fold (asum sel a t k) (asum sel' a t k).
+  rewrite (IH (fun e' Hin => H e' (or_intror Hin))).
+  destruct (N.eqb_spec (le_app e) a) as [Ea|]; [rewrite (H e (or_introl eq_refl) Ea); reflexivity|rewrite !andb_false_r; reflexivity].
+Qed.
+
+Lemma TInv_decrease_any q sel L a u x tl r rm q' b :
+  TInv q sel L -> wf r -> res_in_range r ->
+  (exists e, In e L /\ le_app e = a) ->
+  (forall e, In e L -> le_app e = a -> sel e = true /\ le_path e = x :: tl) ->
+  sel (mkLE a u (x :: tl) (neg_res r)) = true ->
+  (rm = true -> forall k, getz r k = asum (fun _ => true) a L k) ->
+  bounded L -> bounded (ledger_dec L a u (x :: tl) r rm) ->
+  decrease (x :: tl) a (Some r) rm q = (q', b) ->
+  TInv q' sel (ledger_dec L a u (x :: tl) r rm) /\ b = removable q'.
+Proof.
+  intros HT Wr Rr (e1 & Hin1 & Ha1) Hall Hsel Hsum B B' Hd.
+  assert (Hentry : exists e, In e L /\ sel e = true /\ le_app e = a /\ le_path e = x :: tl).
+  { exists e1. destruct (Hall e1 Hin1 Ha1). repeat split; assumption. }
+  destruct rm; unfold ledger_dec in *.
+  - apply (TInv_decrease_remove q sel L a x tl r HT Wr Rr Hentry q' b); try assumption.
+    + intros e Hin _ Ha. apply (Hall e Hin Ha).
+    + intros k. rewrite (Hsum eq_refl k). apply asum_ext. intros e Hin Ha. symmetry. apply (Hall e Hin Ha).
+  - apply (TInv_decrease_keep q sel L a u x tl r HT Wr Rr Hentry q' b); assumption.
+Qed.
+
+Lemma TInv_dec_other q sel L a u p r rm :
+  (forall e, In e L -> le_app e = a -> sel e = false) -> sel (mkLE a u p (neg_res r)) = false ->
+  TInv q sel L -> TInv q sel (ledger_dec L a u p r rm).
+Proof.
+  intros H1 H2 HT. destruct rm; unfold ledger_dec.
+  - apply TInv_filter_unsel; [|assumption]. intros e Hin Hs Ha. rewrite (H1 e Hin Ha) in Hs. discriminate.
+  - apply TInv_cons_unsel; assumption.
+Qed.
+Lemma none_dec_other (sel : lentry -> bool) L a u p r rm :
+  (forall e, In e L -> sel e = false) -> sel (mkLE a u p (neg_res r)) = false ->
+  forall e, In e (ledger_dec L a u p r rm) -> sel e = false.
+Proof.
+  intros H1 H2 e. destruct rm; unfold ledger_dec.
+  - intros Hin. apply filter_In in Hin. apply H1. apply Hin.
+  - intros [<-|Hin]; [assumption|apply H1; assumption].
+Qed.
+
+Lemma anchored_not_removable q : anchored q -> removable q = false.
+Proof.
+  intros (names & l & Hl & Hr). destruct (removable q) eqn:E; [|reflexivity]. exfalso.
+  destruct (removable_facts q E) as (Hnc & _ & _ & Hm0 & Hmz). unfold alim in Hl. destruct names as [|c rest].
+  - cbn [sub_at] in Hl. injection Hl as <-. unfold real in Hr. cbn [fst snd] in Hr. rewrite Hm0, Hmz in Hr. discriminate.
+  - rewrite (sub_at_no_children _ _ _ Hnc) in Hl. discriminate.
+Qed.
+Lemma under_nil e : (exists tl, le_path e = ROOT :: tl) -> under [] e = true.
+Proof. intros (tl & H). unfold under. rewrite H. apply is_prefix_nil. Qed.
+
+Lemma link_cases s u a ut : nlookup (users s) u = Some ut ->
+  (link s u a = None /\ (getGroupForApp ut a = EMPTY \/ exists g, False /\ g = getGroupForApp ut a)) \/ link s u a = Some (getGroupForApp ut a).
+Proof.
+  intros Hu. unfold link, getGroupForApp. rewrite Hu. destruct (nlookup (ut_links ut) a) as [[g|]|].
+  - right. reflexivity.
+  - left. split; [reflexivity|left; reflexivity].
+  - left. split; [reflexivity|left; reflexivity].
+Qed.
+
+Lemma anchored_decrease x tl a u rm q q' b : anchored q -> decrease (x :: tl) a u rm q = (q', b) ->
+  (exists m, sub_at tl q = Some m) -> anchored q'.
+Proof.
+  intros (names & l & Hl & Hr) Hd Hm. destruct (decrease_spec a u rm tl x q q' b Hd Hm) as (_ & _ & _ & Hal).
+  exists names, l. split; [apply Hal; assumption|assumption].
+Qed.
+
+Lemma Inv_decrease s L x tl a r (user : ugi) rm :
+  Inv s L -> LInv L ->
+  (a =? EMPTY) = false -> (fst user =? EMPTY) = false -> wf r -> res_in_range r ->
+  (exists e, In e L /\ le_app e = a) ->
+  (forall e, In e L -> le_app e = a -> le_user e = fst user /\ le_path e = x :: tl) ->
+  (rm = true -> forall k, getz r k = asum (fun _ => true) a L k) ->
+  bounded L -> bounded (ledger_dec L a (fst user) (x :: tl) r rm) ->
+  Inv (ugm_decrease s (x :: tl) a (Some r) user rm) (ledger_dec L a (fst user) (x :: tl) r rm).
+Proof.
+  intros (HW & (HL1 & HL2) & (HA1 & HA2)) HLI Ha Hue Wr Rr (e1 & Hin1 & Ha1) Hall Hsum B B'.
+  set (u := fst user) in *. set (L' := ledger_dec L a u (x :: tl) r rm) in *.
+  set (e0 := mkLE a u (x :: tl) (neg_res r)).
+  destruct (Hall e1 Hin1 Ha1) as (Hu1 & Hp1).
+  unfold ugm_decrease. fold u. rewrite Ha, Hue. cbn [is_nil orb].
+  (* the user tracker exists *)
+  pose proof (HW (User u)) as HWu. cbn [who_root] in HWu.
+  destruct (nlookup (users s) u) as [ut|] eqn:Hu; cbn [option_map] in HWu.
+  2:{ exfalso. specialize (HWu e1 Hin1). cbn in HWu. rewrite Hu1, N.eqb_refl in HWu. discriminate. }
+  destruct (decrease (x :: tl) a (Some r) rm (ut_qt ut)) as [q' rmq] eqn:Ed.
+  destruct (TInv_decrease_any (ut_qt ut) (counts s (User u)) L a u x tl r rm q' rmq HWu Wr Rr) as (HTu' & Hrmq); try assumption.
+  { exists e1. split; assumption. }
+  { intros e Hin Hae. destruct (Hall e Hin Hae) as (He & Hp). split; [cbn; rewrite He; apply N.eqb_refl|assumption]. }
+  { cbn. apply N.eqb_refl. }
+  set (g := getGroupForApp ut a). set (links' := if rm then ndel a (ut_links ut) else ut_links ut).
+  set (s1 := if rmq then set_users s (ndel u (users s)) else set_users s (nset u (mkUT links' q') (users s))).
+  assert (Hg1 : groups s1 = groups s) by (unfold s1; destruct rmq; reflexivity).
+  (* entries of L' *)
+  assert (HinL' : forall e, In e L' -> In e L \/ e = e0).
+  { intros e. unfold L', ledger_dec. destruct rm; [intros H; apply filter_In in H; left; apply H|intros [<-|H]; [right; reflexivity|left; assumption]]. }
+  assert (Hroot' : forall e, In e L' -> exists t, le_path e = ROOT :: t).
+  { intros e Hin. destruct (HinL' e Hin) as [H| ->]; [apply (li_root L HLI); assumption|].
+    destruct (li_root L HLI e1 Hin1) as (t & Ht). rewrite Hp1 in Ht. exists tl. cbn. injection Ht as -> _. reflexivity. }
+  (* no entry of the user is left when its tracker goes *)
+  assert (Hgone : rmq = true -> forall e, In e L' -> counts s (User u) e = false).
+  { intros -> e Hin. destruct (counts s (User u) e) eqn:Ec; [|reflexivity]. exfalso.
+    symmetry in Hrmq. destruct (removable_facts q' Hrmq) as (_ & Hna & _).
+    assert (In (le_app e) (aapps q' [])).
+    { apply (ti_apps q' _ L' HTu'). exists e. repeat split; try assumption. apply under_nil. apply Hroot'. assumption. }
+    unfold aapps in H. cbn [sub_at] in H. rewrite Hna in H. contradiction. }
+  (* resolutions of the applications that still hold something are unchanged *)
+  assert (Hres1 : forall e, In e L' -> resolved s1 (le_user e) (le_app e) = resolved s (le_user e) (le_app e)).
+  { intros e Hin. unfold resolved, s1. destruct rmq; cbn [users set_users].
+    - destruct (N.eqb_spec (le_user e) u) as [Eu|Hne]; [|rewrite nlookup_ndel_other by assumption; reflexivity].
+      exfalso. pose proof (Hgone eq_refl e Hin) as Hc. cbn in Hc. rewrite Eu, N.eqb_refl in Hc. discriminate.
+    - rewrite nlookup_nset. destruct (N.eqb_spec (le_user e) u) as [Eu|Hne]; [|reflexivity]. rewrite Eu, Hu. cbn [ut_links].
+      unfold links'. destruct rm; [|reflexivity]. unfold L', ledger_dec in Hin. apply filter_In in Hin. destruct Hin as (_ & Hf).
+      apply nlookup_ndel_other. intros Ea. rewrite Ea, N.eqb_refl in Hf. discriminate. }
+  assert (Hsub1 : forall u' a' lk, resolved s1 u' a' = Some lk -> resolved s u' a' = Some lk).
+  { intros u' a' lk. unfold resolved, s1. destruct rmq; cbn [users set_users].
+    - destruct (N.eqb_spec u' u) as [->|Hne]; [rewrite nlookup_ndel_same; discriminate|rewrite nlookup_ndel_other by assumption; auto].
+    - rewrite nlookup_nset. destruct (N.eqb_spec u' u) as [->|Hne]; [|auto]. rewrite Hu. cbn [ut_links]. unfold links'.
+      destruct rm; [|auto]. destruct (N.eqb_spec a' a) as [->|Hna]; [rewrite nlookup_ndel_same; discriminate|rewrite nlookup_ndel_other by assumption; auto]. }
+  (* the roots of the users after the user side *)
+  assert (Hroot1 : forall u', who_root s1 (User u') = if u' =? u then (if rmq then None else Some q') else who_root s (User u')).
+  { intros u'. cbn [who_root]. unfold s1. destruct rmq; cbn [users set_users].
+    - destruct (N.eqb_spec u' u) as [->|Hne]; [rewrite nlookup_ndel_same; reflexivity|rewrite nlookup_ndel_other by assumption; reflexivity].
+    - rewrite nlookup_nset. destruct (N.eqb_spec u' u); reflexivity. }
+  (* trackers other than the user's and the linked group's *)
+  assert (Hother : forall w, (forall e, In e L -> le_app e = a -> counts s w e = false) -> counts s w e0 = false ->
+             match who_root s w with
+             | Some q => TInv q (counts s w) L'
+             | None => forall e, In e L' -> counts s w e = false
+             end).
+  { intros w H1 H2. specialize (HW w). destruct (who_root s w) as [q|].
+    - apply TInv_dec_other; assumption.
+    - apply none_dec_other; assumption. }
+  assert (HotherU : forall u', u' <> u -> (forall e, In e L -> le_app e = a -> counts s (User u') e = false) /\ counts s (User u') e0 = false).
+  { intros u' Hne. split; [intros e Hin Hae; destruct (Hall e Hin Hae) as (He & _); cbn; rewrite He|cbn];
+      (destruct (N.eqb_spec u u'); [congruence|reflexivity]). }
+  assert (HotherG : forall g', link s u a <> Some g' -> (forall e, In e L -> le_app e = a -> counts s (Group g') e = false) /\ counts s (Group g') e0 = false).
+  { intros g' Hne. assert (Hc : match link s u a with Some g0 => g0 =? g' | None => false end = false).
+    { destruct (link s u a) as [g0|]; [|reflexivity]. destruct (N.eqb_spec g0 g'); [subst; contradiction Hne; reflexivity|reflexivity]. }
+    split; [intros e Hin Hae; destruct (Hall e Hin Hae) as (He & _); cbn; rewrite He, Hae|cbn]; exact Hc. }
+  (* the group side *)
+  destruct (link s u a) as [g0|] eqn:El.
+  - (* the application is charged to group g0 = g *)
+    assert (g0 = g).
+    { unfold g, getGroupForApp. unfold link in El. rewrite Hu in El. destruct (nlookup (ut_links ut) a) as [[g1|]|]; congruence. }
+    subst g0. destruct (HL2 u a g El) as (Hex & Hgne). destruct (N.eqb_spec g EMPTY); [contradiction|].
+    rewrite Hg1. destruct (nlookup (groups s) g) as [gt|] eqn:Eg; [|contradiction].
+    pose proof (HW (Group g)) as HWg. cbn [who_root] in HWg. rewrite Eg in HWg. cbn [option_map] in HWg.
+    destruct (decrease (x :: tl) a (Some r) rm (gt_qt gt)) as [gq' grm] eqn:Edg.
+    destruct (TInv_decrease_any (gt_qt gt) (counts s (Group g)) L a u x tl r rm gq' grm HWg Wr Rr) as (HTg' & Hgrm); try assumption.
+    { exists e1. split; assumption. }
+    { intros e Hin Hae. destruct (Hall e Hin Hae) as (He & Hp). split; [cbn; rewrite He, Hae, El; apply N.eqb_refl|assumption]. }
+    { cbn. rewrite El. apply N.eqb_refl. }
+    assert (Hanc : anchored gq').
+    { apply (anchored_decrease x tl a (Some r) rm (gt_qt gt) gq' grm (HA1 g gt Eg) Edg).
+      apply aapps_nonempty_sub. intros Hn.
+      assert (In a (aapps (gt_qt gt) tl)).
+      { apply (ti_apps _ _ L HWg). exists e1. repeat split; try assumption.
+        - cbn. rewrite Hu1, Ha1, El. apply N.eqb_refl.
+        - unfold under. rewrite Hp1. apply is_prefix_refl. }
+      rewrite Hn in H. contradiction. }
+    rewrite Hgrm, (anchored_not_removable gq' Hanc).
+    set (gapps' := if rm then ndel a (gt_apps gt) else gt_apps gt).
+    set (s2 := set_groups s1 (nset g (mkGT gapps' gq') (groups s))).
+    assert (Hres2 : forall e, In e L' -> resolved s2 (le_user e) (le_app e) = resolved s (le_user e) (le_app e)) by exact Hres1.
+    split; [|split].
+    + intros w. assert (Hc : forall e, In e L' -> counts s2 w e = counts s w e) by (intros; apply counts_resolved; apply Hres2; assumption).
+      destruct w as [u'|g'].
+      * change (who_root s2 (User u')) with (who_root s1 (User u')). rewrite Hroot1.
+        destruct (N.eqb_spec u' u) as [->|Hne].
+        -- destruct rmq.
+           ++ intros e Hin. rewrite Hc by assumption. apply Hgone; [reflexivity|assumption].
+           ++ apply (TInv_ext _ (counts s (User u))); [intros; symmetry; apply Hc; assumption|assumption].
+        -- destruct (HotherU u' Hne) as (H1 & H2). pose proof (Hother (User u') H1 H2) as Ho.
+           destruct (who_root s (User u')) as [q|].
+           ++ apply (TInv_ext _ (counts s (User u'))); [intros; symmetry; apply Hc; assumption|assumption].
+           ++ intros e Hin. rewrite Hc by assumption. apply Ho. assumption.
+      * cbn [who_root]. unfold s2. cbn [groups set_groups]. rewrite nlookup_nset. destruct (N.eqb_spec g' g) as [->|Hne].
+        -- cbn [option_map gt_qt]. apply (TInv_ext _ (counts s (Group g))); [intros; symmetry; apply Hc; assumption|assumption].
+        -- assert (Hl' : Some g <> Some g') by congruence. destruct (HotherG g' Hl') as (H1 & H2).
+           pose proof (Hother (Group g') H1 H2) as Ho. cbn [who_root] in Ho.
+           destruct (nlookup (groups s) g') as [gt1|]; cbn [option_map] in *.
+           ++ apply (TInv_ext _ (counts s (Group g'))); [intros; symmetry; apply Hc; assumption|assumption].
+           ++ intros e Hin. rewrite Hc by assumption. apply Ho. assumption.
+    + split.
+      * intros e Hin. rewrite Hres2 by assumption. destruct (HinL' e Hin) as [H| ->]; [apply HL1; assumption|].
+        cbn [le_user le_app e0]. rewrite <- Hu1, <- Ha1. apply HL1. assumption.
+      * intros u' a' g' Hl. assert (Hl' : link s u' a' = Some g').
+        { rewrite link_resolved in *. change (resolved s2 u' a') with (resolved s1 u' a') in Hl.
+          destruct (resolved s1 u' a') as [lk|] eqn:Er; [|discriminate]. rewrite (Hsub1 u' a' lk Er). assumption. }
+        destruct (HL2 u' a' g' Hl') as (H1 & H2). split; [|assumption].
+        unfold s2. cbn [groups set_groups]. rewrite nlookup_nset. destruct (N.eqb_spec g' g); [discriminate|assumption].
+    + split.
+      * intros g' gt1. unfold s2. cbn [groups set_groups]. rewrite nlookup_nset. destruct (N.eqb_spec g' g) as [->|]; [|apply HA1].
+        intros H. injection H as <-. exact Hanc.
+      * intros g' Hrv. unfold s2. cbn [groups set_groups]. rewrite nlookup_nset. destruct (N.eqb_spec g' g); [discriminate|].
+        apply HA2. unfold s1 in Hrv. destruct rmq; exact Hrv.
+  - (* no group *)
+    assert (Eg0 : g = EMPTY).
+    { unfold g, getGroupForApp. unfold link in El. rewrite Hu in El. destruct (nlookup (ut_links ut) a) as [[g1|]|]; congruence. }
+    rewrite Eg0. cbn [N.eqb EMPTY].
+    split; [|split].
+    + intros w. assert (Hc : forall e, In e L' -> counts s1 w e = counts s w e) by (intros; apply counts_resolved; apply Hres1; assumption).
+      destruct w as [u'|g'].
+      * rewrite Hroot1. destruct (N.eqb_spec u' u) as [->|Hne].
+        -- destruct rmq.
+           ++ intros e Hin. rewrite Hc by assumption. apply Hgone; [reflexivity|assumption].
+           ++ apply (TInv_ext _ (counts s (User u))); [intros; symmetry; apply Hc; assumption|assumption].
+        -- destruct (HotherU u' Hne) as (H1 & H2). pose proof (Hother (User u') H1 H2) as Ho.
+           destruct (who_root s (User u')) as [q|].
+           ++ apply (TInv_ext _ (counts s (User u'))); [intros; symmetry; apply Hc; assumption|assumption].
+           ++ intros e Hin. rewrite Hc by assumption. apply Ho. assumption.
+      * cbn [who_root]. rewrite Hg1. assert (Hl' : None <> Some g') by discriminate. destruct (HotherG g' Hl') as (H1 & H2).
+        pose proof (Hother (Group g') H1 H2) as Ho. cbn [who_root] in Ho.
+        destruct (nlookup (groups s) g') as [gt1|]; cbn [option_map] in *.
+        -- apply (TInv_ext _ (counts s (Group g'))); [intros; symmetry; apply Hc; assumption|assumption].
+        -- intros e Hin. rewrite Hc by assumption. apply Ho. assumption.
+    + split.
+      * intros e Hin. rewrite Hres1 by assumption. destruct (HinL' e Hin) as [H| ->]; [apply HL1; assumption|].
+        cbn [le_user le_app e0]. rewrite <- Hu1, <- Ha1. apply HL1. assumption.
+      * intros u' a' g' Hl. assert (Hl' : link s u' a' = Some g').
+        { rewrite link_resolved in *. destruct (resolved s1 u' a') as [lk|] eqn:Er; [|discriminate]. rewrite (Hsub1 u' a' lk Er). assumption. }
+        rewrite Hg1. apply (HL2 u' a' g' Hl').
+    + split.
+      * intros g' gt1. rewrite Hg1. apply HA1.
+      * intros g' Hrv. rewrite Hg1. apply HA2. unfold s1 in Hrv. destruct rmq; exact Hrv.
 Qed.
